@@ -797,13 +797,13 @@ impl Property for C16 {
                     note: "train_test_split, shuffle off: n 1..64 x 16 test sizes x {f64,f32} (schedule-free)" },
             Batch { name: "forced-perm-exhaustive", count: forced_small().cases.len() as u64, simulated: true, exhaustive: true,
                     note: "every permutation of n<=5 rows forced through the RNG seam x every k x every operation" },
-            Batch { name: "prng-shuffle", count: if q { 60_000 } else { 6_000_000 }, simulated: true, exhaustive: false,
+            Batch { name: "prng-shuffle", count: if q { 200_000 } else { 6_000_000 }, simulated: true, exhaustive: false,
                     note: "seeded PRNG words behind thread_rng; n 2..64 (thorough: up to 300)" },
-            Batch { name: "extreme-shuffle", count: if q { 30_000 } else { 2_000_000 }, simulated: true, exhaustive: false,
+            Batch { name: "extreme-shuffle", count: if q { 80_000 } else { 2_000_000 }, simulated: true, exhaustive: false,
                     note: "PRNG words with extreme words (0, 1, 2^31, 2^32-1, ...) injected at random draw sites" },
-            Batch { name: "forced-structured", count: if q { 12_000 } else { 600_000 }, simulated: true, exhaustive: false,
+            Batch { name: "forced-structured", count: if q { 40_000 } else { 600_000 }, simulated: true, exhaustive: false,
                     note: "identity / reverse / rotation / parity-sorted / adjacent-swap permutations forced through the seam" },
-            Batch { name: "party-fault", count: if q { 12_000 } else { 600_000 }, simulated: true, exhaustive: false,
+            Batch { name: "party-fault", count: if q { 40_000 } else { 600_000 }, simulated: true, exhaustive: false,
                     note: "estimator fit/predict fails at a chosen fold; invariants are checked on the history prefix" },
         ]
     }
